@@ -1,0 +1,26 @@
+//go:build verif
+
+package partitions
+
+import (
+	"0chain.net/core/datastore"
+	"github.com/0chain/common/core/util"
+)
+
+// VerifCacheTypes returns constructors of the unexported cacheable node types of this package
+// (verification harness only; property C07).
+func VerifCacheTypes() map[string]func() util.MPTSerializable {
+	return map[string]func() util.MPTSerializable{
+		"partition": func() util.MPTSerializable { return &partition{} },
+		"location":  func() util.MPTSerializable { return &location{} },
+	}
+}
+
+// VerifCachePartitionKey is the state key of partition number index of the partitions called name.
+func VerifCachePartitionKey(name string, index int) datastore.Key { return partitionKey(name, index) }
+
+// VerifCacheLocKey is the state key of the location node of item id in the partitions called name.
+func VerifCacheLocKey(name, id string) datastore.Key {
+	p := &Partitions{Name: name}
+	return p.getLocKey(id)
+}
